@@ -105,7 +105,7 @@ func checkC20(c *Ctx) {
 		c.TLC(TLCOpt{Module: "MC_EvalLimit", Heap: "4g", Workers: 8,
 			Cfg: cfgText("INIT Init", "NEXT MCNext", "CONSTANTS", fmt.Sprintf("CallLimit = %d", lim), "Fuel = 0", "NextOutsidePattern = {\"ends-rule\"}",
 				"INVARIANTS TypeOK FrameBalance BaseAtRuleStart DepthBounded NoEscape OutcomeLegal SigConsumed RefusedAsRuntimeError Vec",
-				"PROPERTIES StopFreezesOutput DoneIsFinal"),
+				"PROPERTIES StopFreezesOutput DoneIsFinal RefinesFrames"),
 			OnVec: func(raw []byte) {
 				var v limitVec
 				VecDecode(raw, &v)
